@@ -92,6 +92,8 @@ void vm_write_key_totals (const char *path) {
 }
 
 /* ------------------------------------------------------------------ snapshot */
+/* wrap/w_vmerr_array.c (linked by the C05 / C06 harnesses only) */
+extern int vw_sort_ftc_depth (void) __attribute__ ((weak));
 void vm_snap_take (vm_snap *s) {
   s->sp = sp; s->fp = fp; s->csp = csp; s->pc = pc;
   s->cur = current_object; s->prev = previous_ob; s->cg = command_giver;
@@ -100,6 +102,7 @@ void vm_snap_take (vm_snap *s) {
   s->fio = function_index_offset; s->vio = variable_index_offset;
   s->cgsp = vw_cgsp_depth (); s->ecd = vw_ec_depth (); s->nobj = vw_num_objects_this_thread ();
   s->isa = illegal_sentence_action; s->in_err = vw_in_error (); s->in_meh = vw_in_mudlib_error_handler ();
+  s->sortd = vw_sort_ftc_depth ? vw_sort_ftc_depth () : 0;
 }
 
 static const char *obname (object_t *o) { return o ? (o->name ? o->name : "?") : "0"; }
@@ -119,7 +122,8 @@ int vm_snap_diff (const vm_snap *a, const vm_snap *b, int sp_delta, int with_pc,
   DIFF (b->caller_type != a->caller_type, "caller_type", "caller_type was %d, now %d", a->caller_type, b->caller_type);
   DIFF (b->fio != a->fio, "function_index_offset", "function_index_offset was %d, now %d", a->fio, b->fio);
   DIFF (b->vio != a->vio, "variable_index_offset", "variable_index_offset was %d, now %d", a->vio, b->vio);
-  DIFF (b->cg != a->cg, "command_giver", "command_giver was /%s, now /%s", obname (a->cg), obname (b->cg));
+  /* a saved command giver that has been destructed meanwhile may come back as itself or as 0 */
+  DIFF (b->cg != a->cg && !(b->cg == 0 && a->cg && (a->cg->flags & O_DESTRUCTED)), "command_giver", "command_giver was /%s, now /%s", obname (a->cg), obname (b->cg));
   DIFF (b->cgsp != a->cgsp, "command_giver_stack", "command giver save-stack depth was %d, now %d", a->cgsp, b->cgsp);
   DIFF (b->ecd != a->ecd, "error_context_chain", "error context chain depth was %d, now %d", a->ecd, b->ecd);
   DIFF (b->rd != a->rd, "restrict_destruct", "restrict_destruct was /%s, now /%s", obname (a->rd), obname (b->rd));
@@ -129,6 +133,7 @@ int vm_snap_diff (const vm_snap *a, const vm_snap *b, int sp_delta, int with_pc,
   DIFF (b->in_meh != a->in_meh, "in_mudlib_error_handler", "in_mudlib_error_handler was %d, now %d", a->in_meh, b->in_meh);
   DIFF (b->chb != a->chb, "current_heart_beat", "current_heart_beat was /%s, now /%s", obname (a->chb), obname (b->chb));
   DIFF (b->cint != a->cint, "current_interactive", "current_interactive was /%s, now /%s", obname (a->cint), obname (b->cint));
+  DIFF (b->sortd != a->sortd, "sort_array_descriptor_chain", "%d sort_array() callback descriptors were linked, now %d", a->sortd, b->sortd);
 #undef DIFF
   return n;
 }
@@ -182,6 +187,7 @@ static void catch_done (int i) {
   }
 }
 
+object_t *vm_giver;
 object_t *vm_fault_object;   /* if set, the fault position counts only the dispatches executed with this current_object */
 static long insn_obj;
 long vm_insn_in_object (void) { return insn_obj; }
@@ -207,6 +213,14 @@ static void hook (void) {
       expect_csp = vw_ec_top_csp ();
       for (int i = nmon - 1; i >= 0; i--) if (mon[i].s.csp == expect_csp) { mon[i].expect = 1; break; }
     } else vm_fault_ctx = vw_ec_depth () == driver_depth ? VM_CTX_DRIVER : VM_CTX_OTHER;
+    if (vm_giver && !(vm_giver->flags & O_DESTRUCTED) && !vw_restrict_destruct ()) {
+      /* "the failing evaluation destructs the object that was this_player() when the context was saved, then raises" */
+      error_context_t ge;
+      if (save_context (&ge)) {
+        if (!setjmp (ge.context)) destruct_object (vm_giver); else restore_context (&ge);
+        pop_context (&ge);
+      }
+    }
     if (vm_inj_mode == VM_INJ_ERROR) error ("*verif fault %ld\n", vm_fault_at);
     else {
       array_t *a = allocate_array (2);
@@ -308,11 +322,13 @@ static const char *leaf_body[] = {
   "  mixed t = ({ \"leaf\" }); hits++;\n  t = ({ t, load_object(\"/c05/bad@N\") });\n",
   "  mixed t = ({ \"leaf\" }); hits++;\n  destruct(this_object()); t = ({ t, g1() + cb1(1, 2) });\n  error(\"after destruct\\n\");\n",
   "  mixed t = ({ \"leaf\" }); mixed *sprd = ({ 1, 2, 3 }); int z; hits++;\n  t = ({ t, va(sprd..., sizeof(t) / z) });\n",
+  /* the object that was this_player() at the driver's entry / at the outer catch (pass --giver=1) is destructed, then the error */
+  "  mixed t = ({ \"leaf\" }); object pz = find_object(\"/c05/pl\"); hits++;\n  if (pz) destruct(pz);\n  error(\"entry giver destructed\\n\");\n",
 };
 /* leaves 0..NBASE-1 come from leaf_body[]; leaves NBASE.. are the family "callback efun with an unresolvable / wrong callback":
  * form x target, the error is raised by the efun's own argument processing before any callback instruction runs */
 static const char *base_leaf_names[] = { "plain", "error()", "throw()", "div-by-zero", "index-out-of-bounds", "bad-operand", "call_other-on-0",
-  "efun-bad-argument", "sprintf-error", "index-in-foreach", "too-deep-recursion", "eval-cost", "stack-overflow", "load-missing", "load-compile-error", "destruct-self-then-error", "error-after-varargs-spread" };
+  "efun-bad-argument", "sprintf-error", "index-in-foreach", "too-deep-recursion", "eval-cost", "stack-overflow", "load-missing", "load-compile-error", "destruct-self-then-error", "error-after-varargs-spread", "destruct-entry-command-giver-then-error" };
 #define NBASE ((int) (sizeof leaf_body / sizeof leaf_body[0]))
 static const char *cb_form_name[] = { "filter(array)", "filter(mapping)", "map(array)", "map(mapping)", "map(string)", "sort_array", "unique_array",
   "unique_mapping", "implode", "call_out", "add_action", "input_to", "filter(array,extra-args)", "map(mapping,extra-args)" };
@@ -323,7 +339,7 @@ static const char *cb_tgt_name[] = { "target-0", "target-destructed-object", "ta
 static const char *cb_tgt_stmt[] = { "T = 0;", "dz = load_object(\"/c05/lv4\"); destruct(dz); T = dz;", "T = \"/no/such/file\";", "T = this_object();", "T = 3.5;", "F = 3.5; T = this_object();" };
 #define NCBFORM ((int) (sizeof cb_form_name / sizeof *cb_form_name))
 #define NCBTGT ((int) (sizeof cb_tgt_name / sizeof *cb_tgt_name))
-const char *vm_leaf_names[17 + 14 * 6 + 1];
+const char *vm_leaf_names[18 + 14 * 6 + 1];
 int vm_nleaves;
 __attribute__ ((constructor)) static void vm_init_leaves (void) {
   static char nm[14 * 6][80];
